@@ -3,6 +3,7 @@ package main
 import (
 	"bytes"
 	"fmt"
+	"reflect"
 	"runtime"
 	"sync"
 
@@ -42,6 +43,8 @@ func (c16) Gen(r *Rng, tier string, emit func(string, Tok)) {
 			ops = append(ops, r.Intn(2))
 		}
 		emit("hold-mixed-rewind", L(I(1), scenario{kind: 1, optSize: opt, fault: -1, data: data, ops: append(append(ops, 2), 3)}.tok()))
+		emit("caller-overwrites-results", L(I(5), scenario{kind: kind, optSize: opt, fault: -1, chunks: []int{r.Range(1, 400)}, data: data, ops: []int{[]int{3, 4}[k%2]}}.tok()))
+		emit("caller-overwrites-results", L(I(5), scenario{kind: 1, optSize: opt, fault: -1, data: data, ops: append(append(append([]int{}, ops...), 2), 3)}.tok()))
 	}
 	// thorough tier: tens of thousands of other packets (null packets) between the packets of one unit, and between a
 	// delivered packet and the end of the run (a payload kept as a view of a recycled read buffer shows only then)
@@ -135,8 +138,54 @@ func (c16) Gen(r *Rng, tier string, emit func(string, Tok)) {
 	}
 }
 
+// scribble overwrites everything reachable from a returned value: bytes are inverted, numbers incremented, booleans
+// flipped (unexported fields, e.g. inside time.Time, are left alone).
+func scribble(v reflect.Value, depth int) {
+	if depth > 14 {
+		return
+	}
+	switch v.Kind() {
+	case reflect.Ptr, reflect.Interface:
+		if !v.IsNil() {
+			scribble(v.Elem(), depth+1)
+		}
+	case reflect.Struct:
+		if v.Type().PkgPath() == "time" {
+			return
+		}
+		for i := 0; i < v.NumField(); i++ {
+			// FirstPacket is shared, by design, by all the data parsed from one unit (several sections): not touched
+			if f := v.Type().Field(i); f.PkgPath == "" && f.Name != "FirstPacket" {
+				scribble(v.Field(i), depth+1)
+			}
+		}
+	case reflect.Slice, reflect.Array:
+		for i := 0; i < v.Len(); i++ {
+			scribble(v.Index(i), depth+1)
+		}
+	case reflect.Uint8, reflect.Uint16, reflect.Uint32, reflect.Uint64, reflect.Uint:
+		if v.CanSet() {
+			v.SetUint(^v.Uint())
+		}
+	case reflect.Int, reflect.Int8, reflect.Int16, reflect.Int32, reflect.Int64:
+		if v.CanSet() {
+			v.SetInt(v.Int() + 1)
+		}
+	case reflect.Bool:
+		if v.CanSet() {
+			v.SetBool(!v.Bool())
+		}
+	}
+}
+
 func (c16) Run(c Tok) Tok {
 	switch c.At(0).Int() {
+	case 5:
+		// every returned value is overwritten by the caller right after delivery: what later calls return (this
+		// Demuxer's and, in the next case of the run, any other Demuxer's) must not depend on it
+		scenarioScribble = func(v interface{}) { scribble(reflect.ValueOf(v), 0) }
+		defer func() { scenarioScribble = nil }()
+		return runScenario(scenarioOf(c.At(1))).observation()
 	case 1:
 		scenarioAfterCall = func() { astits.VerifPoisonBytesPool(4, 4096, 0xa5) }
 		defer func() { scenarioAfterCall = nil }()
